@@ -621,6 +621,12 @@ def check_C12(tier, seed):
         uni.append("".join(rng.choice(gen.TOKENS + ["\u00e9: \u4e2d\n", "\U0001f600", "- \u00fc\r\n", "\"\u00e9\\n\"", "# \u4e2d\r", "k:  v   # c\r\n"]) for _ in range(k)))
     cases += [s for s in uni if s not in set(cases)]
     dist["multibyte/crlf soups"] = len(uni)
+    # a small dedicated stream for the recorded finding (embedded NUL): kept apart from the main stream
+    nul = ["a\0b", "a: 1\0", "- a\n\0\n- b\n", "k: [a,\0b]\n", "\"q\0\"", "# c\0\nx"]
+    cases += nul
+    dist["embedded-nul (known finding stream)"] = len(nul)
+    known12 = core.known_findings("C12")
+    kf12 = set()
     lines = [enc(s) for s in cases]
     res.coverage["input_distribution"] = dict(groups=dist, sizes=size_hist(cases))
     if res.harness_ok and res.model_ok:
@@ -638,7 +644,9 @@ def check_C12(tier, seed):
                 ms = markers_of(impl[b][i])
                 nmark += len(ms)
                 v = verd[i]
-                if len(v) != len(ms) or "0" in v:
+                if (len(v) != len(ms) or "0" in v) and known12 and "\0" in s:
+                    kf12.add("%s: %s" % (known12[0]["class"], known12[0]["what"]))
+                elif len(v) != len(ms) or "0" in v:
                     k = v.find("0") if len(v) == len(ms) else -1
                     res.add_violation("a reported position is outside the input or its line/column is not the true one (back-end %s): %s"
                                       % (b, ms[k] if k >= 0 else v[:80]), dict(input=s, codepoints=lines[i], backend=b), impl=impl[b][i][-500:])
@@ -682,6 +690,7 @@ def check_C12(tier, seed):
                                   model=model[i][-400:], impl=impl["str"][i][-400:])
             if len(evs) >= 5:
                 res.nontrivial.add(s)
+        res.known += sorted(kf12)
         res.coverage["markers_checked"] = nmark
         res.coverage["traces_validated_against_impl"] = len(cases)
         for i in (3, len(cases) // 2, len(cases) - 3):
